@@ -38,7 +38,154 @@ pub const FAMILIES: &[&str] = &[
     "crit_codata_label", "crit_codata_nested",
     "seq_dtor_live", "seq_dtor_data",
     "mixed",
+    // ---- near-leaf families (see NEAR_LEAF below): one per (leaf test of the compiler) x (nearest non-leaf shape)
+    "nl_if_exit", "nl_if_retop", "nl_if_callarg", "nl_if_retctor", "nl_if_dtor", "nl_if_caseof",
+    "nl_case2_exit", "nl_case2_retop", "nl_case2_callarg", "nl_case2_retctor", "nl_case2_dtor", "nl_case2_caseof",
+    "nl_data_switch", "nl_data_rename", "nl_data_lit", "nl_data_op", "nl_data_letxtor", "nl_data_known", "nl_data_ifc",
+    "nl_data_print", "nl_data_label", "nl_data_callarg", "nl_data_exitarg", "nl_data_dtorarg", "nl_data_create", "nl_data_retop",
+    "nl_codata_ifc", "nl_codata_lit", "nl_codata_op", "nl_codata_rename", "nl_codata_letxtor", "nl_codata_print", "nl_codata_label",
+    "nl_codata_switch", "nl_codata_known", "nl_codata_cocase", "nl_codata_callarg", "nl_codata_create",
+    "nl_data2_lit", "nl_codata2_lit",
 ];
+
+/// Near-leaf families.  The compiler decides in five places whether a piece of code that several branches
+/// need is small enough to be COPIED (a "leaf") or must be SHARED:
+///   fun2core ifc.rs / case.rs   L1 the continuation is a covariable            L2 it is `mu~x. exit p`, p a variable or literal
+///                               L3 (case.rs) at most one clause
+///   core2axcut cut.rs           L4 at most one xtor      L5 the expanded side of a critical pair is `exit x`
+///     (shrink_critical_pairs)   L6 ... is a call `f(x1, .., xn)`   L7 ... is `<x | K(x1,..)>` / `<K(x1,..) | a>` (an invoke)
+/// Every family below nests, k deep, a branch point whose shared code is the NEAREST NON-LEAF of one of
+/// these shapes and contains the next level, so that widening any leaf test to that shape costs 2^k (3^k):
+///   nl_{if,case2}_<C>   the continuation of a conditional / two-clause match in `let xi = B; C[next]`:
+///       exit      mu~x. exit <compound producer>          (L2 with p = mu a. ..)
+///       retop     mu~x. <x + (mu b. ..) | ret>            (return of a compound term: L1 under a mu~)
+///       callarg   mu~x. g2(x, mu b. ..; ret)              (a call with a non-variable argument)
+///       retctor   mu~x. <C(x, mu b. ..) | ret>            (return of a compound constructor term, data result)
+///       dtor      the destructor  getc(mu b. ..; ret)     (L1: a consumer that is not a covariable, codata)
+///       caseof    the consumer  case { .., C3 => .. }     (L1: a case consumer with a big clause)
+///   nl_data_<F>      `let ti: T3 = mk3(..); F[next]`: a critical pair at a data type whose expanded side
+///                    (the rest) has top-level form F;  nl_codata_<F>: `let pi: Obj = label ki { F[next] }; pi`,
+///                    the expanded side is the label body.  F:
+///       switch    <x | case {..big..}>   (L7: a switch)        cocase   <cocase {..big..} | a>   (L7, codata)
+///       rename    <x | mu~u. ..>         (L7: cut of a variable)       lit / op   <5 | mu~n. ..>, <a + i | mu~n. ..>
+///       letxtor   <K(..) | mu~u. ..>     (L7: xtor against a binder)   known      <K(..) | case {..}>
+///       create    <cocase{..} | mu~q. ..>                              ifc / print  an IfC / print statement
+///       label     <mu l. .. | a>         (L7: cut of a covariable)     (all operands are variables: a literal operand
+///                                                                      would be named first and give the `lit` form)
+///       callarg   <mu b. .. | mu~x. g(x; ret)>   (L6: call with a compound argument)
+///       exitarg   <mu b. .. | mu~x. exit x>      (L5: exit of a compound producer)
+///       dtorarg   <mu b. .. | mu~x. <o | getc(x; ret)>>   (L7: invoke with a non-variable argument)
+///       retop     <mu b. .. | mu~y. <a + y | ret>>
+///   nl_data2_lit / nl_codata2_lit   the `lit` form at a type with exactly two xtors (L3 / L4 widened to `<= 2`)
+pub fn is_near_leaf(name: &str) -> bool { name.starts_with("nl_") }
+
+const DECLS_NL: &str = "data L { N, C(x: i64, xs: L) }
+codata Obj2 { ga : i64, gb : i64 }
+def g(n: i64): i64 { n }
+def g2(n: i64, m: i64): i64 { n + m }
+def mkobj(n: i64): Obj { new { geta => n, getb => 1, getc(z) => z + n } }
+def ido(o: Obj): Obj { o }
+def hd(l: L): i64 { l.case { N => 0, C(x, xs) => x } }
+";
+
+fn newobj(i: usize) -> String { format!("new {{ geta => {i}, getb => a, getc(z{i}) => z{i} + {i} }}") }
+
+/// fun2core: brancher `b` (if / case2), continuation shape `c`
+fn nl_f2c(b: &str, c: &str, i: usize, k: usize) -> String {
+    let p = if i == 1 { "a".to_string() } else { format!("x{}", i - 1) };
+    if i > k { return match c { "retctor" => "N".to_string(), "dtor" | "caseof" => "a".to_string(), _ => p }; }
+    let next = nl_f2c(b, c, i + 1, k);
+    let int_b = match b { "if" => format!("if {p} == {i} {{ {i} }} else {{ a + {i} }}"), _ => format!("(mk2({p})).case {{ A2 => {i}, B2 => a + {i} }}") };
+    match c {
+        "exit" => format!("let x{i}: i64 = {int_b}; exit ({next})"),
+        "retop" => format!("let x{i}: i64 = {int_b}; x{i} + ({next})"),
+        "callarg" => format!("let x{i}: i64 = {int_b}; g2(x{i}, {next})"),
+        "retctor" => format!("let x{i}: i64 = {int_b}; C(x{i}, {next})"),
+        "dtor" => {
+            let ob = match b { "if" => format!("if a == {i} {{ o }} else {{ mkobj({i}) }}"), _ => format!("(mk2(a + {i})).case {{ A2 => o, B2 => mkobj({i}) }}") };
+            format!("({ob}).getc({next})")
+        }
+        _ => {
+            let tb = match b { "if" => format!("if a == {i} {{ A3 }} else {{ C3 }}"), _ => format!("(mk2(a + {i})).case {{ A2 => A3, B2 => C3 }}") };
+            format!("({tb}).case {{ A3 => {i}, B3(v{i}) => v{i}, C3 => {next} }}")
+        }
+    }
+}
+
+/// core2axcut, data: `let ti: T3 = mk3(a + i); F[next]`
+fn nl_data(f: &str, i: usize, k: usize) -> String {
+    if i > k { return "a".to_string(); }
+    let x = nl_data(f, i + 1, k);
+    let form = match f {
+        "switch" => format!("t{i}.case {{ A3 => {i}, B3(v{i}) => v{i}, C3 => {x} }}"),
+        "rename" => format!("let u{i}: i64 = a; {x}"),
+        "lit" => format!("let n{i}: i64 = {i}; {x}"),
+        "op" => format!("let n{i}: i64 = a + a; {x}"),
+        "letxtor" => format!("let u{i}: T3 = B3(a); {x}"),
+        "known" => format!("(B3(a)).case {{ A3 => 0, B3(v{i}) => {x}, C3 => 1 }}"),
+        "ifc" => format!("if a == a {{ {x} }} else {{ {i} }}"),
+        "print" => format!("print_i64(a); {x}"),
+        "label" => format!("label l{i} {{ {x} }}"),
+        "callarg" => format!("g({x})"),
+        "exitarg" => format!("exit ({x})"),
+        "dtorarg" => format!("o.getc({x})"),
+        "create" => format!("let q{i}: Obj = {}; {x}", newobj(i)),
+        _ => format!("a + ({x})"),
+    };
+    format!("let t{i}: T3 = mk3(a + {i}); {form}")
+}
+
+/// core2axcut, codata: `label ki { F[ let p(i+1): Obj = <next level>; p(i+1) ] }`
+fn nl_codata(f: &str, i: usize, k: usize) -> String {
+    if i > k { return newobj(i); }
+    let z = format!("let p{n}: Obj = {}; p{n}", nl_codata(f, i + 1, k), n = i + 1);
+    let form = match f {
+        "ifc" => format!("if a == a {{ goto k{i} ({}) }} else {{ {z} }}", newobj(i)),
+        "lit" => format!("let n{i}: i64 = {i}; {z}"),
+        "op" => format!("let n{i}: i64 = a + a; {z}"),
+        "rename" => format!("let u{i}: i64 = a; {z}"),
+        "letxtor" => format!("let u{i}: T3 = B3(a); {z}"),
+        "print" => format!("print_i64(a); {z}"),
+        "label" => format!("label l{i} {{ {z} }}"),
+        "switch" => format!("t.case {{ A3 => {o}, B3(v{i}) => {o}, C3 => {z} }}", o = newobj(i)),
+        "known" => format!("(B3(a)).case {{ A3 => {o}, B3(v{i}) => {z}, C3 => {o} }}", o = newobj(i)),
+        "cocase" => format!("new {{ geta => {i}, getb => a, getc(z{i}) => ({z}).getc(z{i}) }}"),
+        "callarg" => format!("ido({z})"),
+        _ => format!("let q{i}: Obj = {}; {z}", newobj(i)),
+    };
+    format!("label k{i} {{ {form} }}")
+}
+
+fn near_leaf_text(name: &str, k: usize) -> Option<String> {
+    let parts: Vec<&str> = name.splitn(3, '_').collect();
+    if parts.len() != 3 { return None; }
+    let (group, form) = (parts[1], parts[2]);
+    let body = match group {
+        "if" | "case2" => {
+            let t = nl_f2c(group, form, 1, k);
+            match form {
+                "retctor" => format!("def f(a: i64): L {{\n  {t}\n}}\ndef main(a: i64): i64 {{ hd(f(a)) }}\n"),
+                "dtor" => format!("def f(a: i64, o: Obj): i64 {{\n  {t}\n}}\ndef main(a: i64): i64 {{ f(a, mkobj(a)) }}\n"),
+                _ => format!("def main(a: i64): i64 {{\n  {t}\n}}\n"),
+            }
+        }
+        "data" => format!("def f(a: i64, o: Obj): i64 {{\n  {}\n}}\ndef main(a: i64): i64 {{ f(a, mkobj(a)) }}\n", nl_data(form, 1, k)),
+        // L4 (at most one xtor): the same with a two-constructor data type / a two-destructor codata type
+        "data2" => {
+            let mut t = "a".to_string();
+            for i in (1..=k).rev() { t = format!("let t{i}: T2 = mk2(a + {i}); let n{i}: i64 = {i}; {t}"); }
+            format!("def main(a: i64): i64 {{\n  {t}\n}}\n")
+        }
+        "codata2" => {
+            let mut t = format!("new {{ ga => {k}, gb => a }}");
+            for i in (1..=k).rev() { t = format!("label k{i} {{ let n{i}: i64 = {i}; let p{n}: Obj2 = {t}; p{n} }}", n = i + 1); }
+            format!("def f(a: i64): Obj2 {{\n  {t}\n}}\ndef main(a: i64): i64 {{ (f(a)).ga }}\n")
+        }
+        "codata" => format!("def f(a: i64, t: T3): Obj {{\n  {}\n}}\ndef main(a: i64): i64 {{ (f(a, mk3(a))).geta }}\n", nl_codata(form, 1, k)),
+        _ => return None,
+    };
+    Some(format!("{DECLS}{DECLS_NL}{body}"))
+}
 
 const DECLS: &str = "data T2 { A2, B2 }
 data T3 { A3, B3(x: i64), C3 }
@@ -85,6 +232,7 @@ fn codata_level(i: usize, k: usize) -> String {
 }
 
 pub fn family_text(name: &str, k: usize) -> Option<String> {
+    if is_near_leaf(name) { return near_leaf_text(name, k); }
     let mut b = String::new(); // body of main(a: i64): i64
     match name {
         "seq_if_live" => {
